@@ -78,8 +78,23 @@ def run(ctx):
         want_repr = "%d:%d-%d:%d" % (x[0] + x[1])
         if repr(mk_r(*x)) != want_repr:
             bad("repr", "Range", "repr(Range%r) = %r, expected %r" % (x, repr(mk_r(*x)), want_repr), [x])
+    # uris that a "helpful" normalisation would identify (escape hex case, scheme case, trailing slash, fragment,
+    # NFC/NFD, dot segments, empty): equality is structural, the strings differ, so the locations differ
     uris = ["file:///a", "file:///b"]
+    near = ["file:///c%3A/x", "file:///c%3a/x", "file:///c:/x", "FILE:///a", "file:///A", "file:///a/", "file:///a#f", "file:///a?q",
+            "file:///./a", "file:///\u00e9", "file:///e\u0301", "file://localhost/a", "", " file:///a", "file:///a "]
     locs = [(u, r) for u in uris for r in ranges]
+    r00 = mk_r((0, 0), (0, 0))
+    for u1 in uris[:1] + near:
+        for u2 in uris[:1] + near:
+            n += 1
+            l1, l2 = L(uri=u1, range=mk_r((0, 0), (0, 0))), L(uri=u2, range=mk_r((0, 0), (0, 0)))
+            want = u1 == u2
+            if (l1 == l2) is not want or (l1 != l2) is want:
+                bad("location-eq", "Location==", "Location(uri=%r) == Location(uri=%r) (same range) gives %r/%r, the uri strings are %s" % (
+                    u1, u2, l1 == l2, l1 != l2, "equal" if want else "different"), [u1, u2])
+            if repr(l1) != "%s:0:0-0:0" % u1:
+                bad("repr", "Location", "repr(Location(uri=%r)) = %r" % (u1, repr(l1)), [u1])
     for x in locs:
         lx = L(uri=x[0], range=mk_r(*x[1]))
         for y in locs:
